@@ -735,6 +735,27 @@ def r15(ck, F):
             ck.ok("C13.R15", key, fn=jb.path)
         else:
             ck.bad("C13.R15", key, where(jb.raw["sp"]), "a path returns %s: with a failing timer every JSON line is lost, while the text formatters write `<unknown time>`" % leaks[:2], fn=jb.path)
+    # ... and on the path where the timer failed, what stands in the record for the time is the placeholder alone: whatever
+    # the timer wrote before failing is discarded (JSON: the scratch string is cleared) and `<unknown time>` is written
+    for fb, nm, need_clear in ((b, "Format::format_timestamp", False), (jb, "Format<Json>::format_event", True)):
+        if fb is None:
+            continue
+        rows = []
+        for pth in PathEval(fb, max_paths=3000).run():
+            failed = any(("format_time(" in show(c[0])) and ((show(c[0]).startswith("is_err(") and c[1] != 0) or (show(c[0]).startswith("is_ok(") and c[1] == 0)
+                         or (show(c[0]).startswith("discr(") and c[1] == 1)) for c in pth.conds)
+            if not failed or pth.end != "return":
+                continue
+            texts = [show(a) for c in pth.calls for a in c[2][1:]]
+            said = any("unknown time" in t for t in texts)
+            cleared = [i for i, c in enumerate(pth.calls) if c[1].get("method") == "clear" and "String" in str(c[1].get("path"))]
+            said_at = [i for i, c in enumerate(pth.calls) if any("unknown time" in show(a) for a in c[2][1:])]
+            rows.append(said and (not need_clear or bool(cleared and said_at and min(cleared) < min(said_at))))
+        k2 = "%s: a failed timer leaves exactly `<unknown time>` in the record" % nm
+        if rows and all(rows):
+            ck.ok("C13.R15", k2, fn=fb.path, detail=len(rows))
+        elif rows:
+            ck.bad("C13.R15", k2, where(fb.raw["sp"]), "%d of %d failed-timer paths do not write the placeholder%s" % (rows.count(False), len(rows), " after clearing the partial text" if need_clear else ""), fn=fb.path)
 
 
 def r11(ck, F):
